@@ -825,6 +825,27 @@ class Extractor:
             m = exc_matches(v.args[0].id[5:-1], [unparse(x) for x in cl.elts] if isinstance(cl, ast.Tuple) else unparse(cl))
             if m is not None:
                 return m
+        if isinstance(v, ast.Compare) and len(v.ops) == 1 and isinstance(v.ops[0], (ast.Is, ast.IsNot)):
+            # identity of symbols: the same caught exception / event result is itself; an object made
+            # by a constructor call on the spot is not an object that existed before
+            a, b = v.left, v.comparators[0]
+            same = None
+            if isinstance(a, ast.Name) and isinstance(b, ast.Name) and a.id.startswith('<') and a.id == b.id:
+                same = True
+            elif (isinstance(a, ast.Call) and isinstance(b, ast.Name) and b.id.startswith('<')) or (isinstance(b, ast.Call) and isinstance(a, ast.Name) and a.id.startswith('<')):
+                c_ = a if isinstance(a, ast.Call) else b
+                nm = call_name(c_) or ''
+                if nm[:1].isupper() or nm.split('.')[-1][:1].isupper():
+                    same = False
+            is_none = lambda x: isinstance(x, ast.Constant) and x.value is None
+            is_new = lambda x: isinstance(x, ast.Call) and ((call_name(x) or '').split('.')[-1][:1].isupper())
+            if same is None and is_none(a) and is_none(b):
+                same = True
+            elif same is None and ((is_none(a) and (is_new(b) or (isinstance(b, ast.Name) and b.id.startswith('<exc ')))) or
+                                   (is_none(b) and (is_new(a) or (isinstance(a, ast.Name) and a.id.startswith('<exc '))))):
+                same = False
+            if same is not None:
+                return same if isinstance(v.ops[0], ast.Is) else not same
         text = canon(v)
         if text in st.facts:
             return st.facts[text]
